@@ -1,68 +1,611 @@
 package distiller
 
-// Replay harness for C04 (non-rendered / non-reading content never leaks) and C05 (the distilled
-// HTML is inert). Injected with -overlay.
+// Bounded replay harnesses for
+//   C04 "non-rendered and non-reading content never leaks into the output" (TestGovcHiddenReplay)
+//   C05 "the distilled HTML is inert"                                        (TestGovcInertReplay)
+// Injected with -overlay; only the public API is exercised. Every failing case prints one line
+// "GOVC-FAIL <case-key> :: <message>", the run ends with a "GOVC-CASES ..." line.
 
 import (
+	"fmt"
 	"strings"
 	"testing"
 
 	"github.com/go-shiori/dom"
+	"golang.org/x/net/html"
 )
 
-var govcFill = strings.Repeat("visible words of the article body go here and there. ", 12)
+// ---------------------------------------------------------------------------------------------
+// shared document scaffolding
+// ---------------------------------------------------------------------------------------------
 
-func govcHiddenDoc() string {
-	return `<html><head><title>T</title><style>.x{}</style><script>var headscript001=1</script></head><body><article>
-<p>` + govcFill + ` <span style="display:none">leakdisplay001</span> <span hidden>leakhidden001</span> <span style="visibility:hidden">leakvis001</span> <span aria-hidden="true">leakaria001</span> <script>leakscript001</script> <style>leakstyle001</style> <!-- leakcomment001 --></p>
-<p>` + govcFill + ` <span aria-hidden="true" class="mwe-math-fallback-image-inline">leakfallback001</span></p>
-<table><caption>cap</caption><tr><th>h1</th><th>h2</th></tr><tr><td>cell <span style="display:none">leaktabledisplay001</span></td><td><script>leaktablescript001</script>x</td></tr><tr><td>a <span hidden>leaktablehidden001</span></td><td>b</td></tr></table>
-<figure><img src="f.png"><figcaption>caption <a href="/c">link</a> <span style="display:none">leakcaption001</span><script>leakcaptionscript001</script></figcaption></figure>
-<form><input value="leakinput001"><button>leakbutton001</button><select><option>leakoption001</option></select><textarea>leaktextarea001</textarea></form>
-<noscript>leaknoscript001</noscript><svg><text>leaksvg001</text></svg><object>leakobject001</object><iframe src="http://other.example/">leakiframe001</iframe>
-<p>` + govcFill + `</p></article></body></html>`
+var govcC04Prose = []string{
+	"The committee met on a rainy Tuesday morning to discuss the long awaited renovation of the old harbour district, and nobody in the crowded room expected the debate to last until well after the street lamps had been lit along the quay and the last ferry had left.",
+	"Several residents spoke about the history of the warehouses, describing how their grandparents had unloaded timber and salted fish there for decades, while the younger speakers argued that affordable housing mattered far more to them than any memory of the trade that had once made the town rich.",
+	"In the end the council agreed on a compromise that kept the brick facades standing but allowed new apartments behind them, a decision the local newspaper called sensible although a few letters to the editor complained loudly about the expected cost and the years of building noise.",
+	"Work is planned to begin next spring once the surveyors have finished measuring the foundations, and the mayor has promised that every household in the district will receive a detailed schedule by post well before the first scaffolding is raised along the waterfront promenade.",
+}
+
+// govcC04Doc wraps a probe between paragraphs of ordinary prose so that the article is extracted.
+func govcC04Doc(head, probe string) string {
+	return `<html><head><title>Harbour district renovation approved</title>` + head + `</head><body><article>` +
+		`<h1>Harbour district renovation approved</h1>` +
+		`<p>` + govcC04Prose[0] + `</p><p>` + govcC04Prose[1] + `</p>` +
+		probe +
+		`<p>` + govcC04Prose[2] + `</p><p>` + govcC04Prose[3] + `</p>` +
+		`</article></body></html>`
+}
+
+// govcC04IsPlaceholder tells whether n is the embed placeholder wrapper the distiller creates itself.
+func govcC04IsPlaceholder(n *html.Node) bool {
+	if n.Type != html.ElementNode {
+		return false
+	}
+	for _, a := range n.Attr {
+		if a.Key == "class" && strings.Contains(a.Val, "embed-placeholder") {
+			return true
+		}
+	}
+	return false
+}
+
+// govcC04Occurrences lists where token occurs in the distilled tree (text nodes, comments and
+// attribute values), ignoring everything inside embed placeholders.
+func govcC04Occurrences(root *html.Node, token string) []string {
+	var out []string
+	var walk func(n *html.Node)
+	walk = func(n *html.Node) {
+		switch n.Type {
+		case html.TextNode:
+			if strings.Contains(n.Data, token) {
+				parent := "?"
+				if n.Parent != nil {
+					parent = n.Parent.Data
+				}
+				out = append(out, "text node inside <"+parent+">")
+			}
+		case html.CommentNode:
+			if strings.Contains(n.Data, token) {
+				out = append(out, "comment node")
+			}
+		case html.ElementNode:
+			if govcC04IsPlaceholder(n) {
+				return
+			}
+			for _, a := range n.Attr {
+				if strings.Contains(a.Val, token) {
+					out = append(out, "attribute "+a.Key+" of <"+n.Data+">")
+				}
+			}
+		}
+		for c := n.FirstChild; c != nil; c = c.NextSibling {
+			walk(c)
+		}
+	}
+	walk(root)
+	return out
+}
+
+func govcC04Run(src string) (res *Result, failure string) {
+	defer func() {
+		if r := recover(); r != nil {
+			res, failure = nil, fmt.Sprintf("panic: %v", r)
+		}
+	}()
+	r, err := ApplyForReader(strings.NewReader(src), nil)
+	if err != nil {
+		return nil, "error: " + err.Error()
+	}
+	if r == nil || r.Node == nil {
+		return nil, "nil result"
+	}
+	return r, ""
+}
+
+func govcC04Short(s string) string {
+	s = strings.Join(strings.Fields(s), " ")
+	if len(s) > 260 {
+		s = s[:260] + "..."
+	}
+	return s
+}
+
+// ---------------------------------------------------------------------------------------------
+// C04
+// ---------------------------------------------------------------------------------------------
+
+// a hiding mechanism: builds the hidden element around the leak token.
+type govcC04Mech struct {
+	name    string
+	element bool // the mechanism is an attribute on an arbitrary element (usable on <tr>, <li> ... too)
+	inHead  bool // the hidden content is put into <head>, nothing into the placement
+	// flowOnly restricts the mechanism to main-flow placements (paragraph, list item, blockquote)
+	flowOnly bool
+	// build returns the markup of the hidden element; tag is the element to use when element==true,
+	// extra are additional attributes (leading space included, or empty), inner is the hidden content.
+	build func(tag, extra, inner string) string
+}
+
+func govcC04AttrMech(name, attr string) govcC04Mech {
+	return govcC04Mech{name: name, element: true, build: func(tag, extra, inner string) string {
+		return "<" + tag + " " + attr + extra + ">" + inner + "</" + tag + ">"
+	}}
+}
+
+var govcC04Mechs = []govcC04Mech{
+	govcC04AttrMech("display-none", `style="display:none"`),
+	govcC04AttrMech("display-none-spaced", `style="color: red; display: none;"`),
+	govcC04AttrMech("display-none-upper", `style="DISPLAY: none"`),
+	govcC04AttrMech("hidden-attr", `hidden`),
+	govcC04AttrMech("hidden-attr-valued", `hidden="hidden"`),
+	govcC04AttrMech("visibility-hidden", `style="visibility:hidden"`),
+	govcC04AttrMech("visibility-hidden-spaced", `style="margin:0; VISIBILITY: hidden"`),
+	govcC04AttrMech("visibility-collapse", `style="visibility:collapse"`),
+	govcC04AttrMech("aria-hidden", `aria-hidden="true"`),
+	{name: "script", build: func(tag, extra, inner string) string {
+		return "<script" + extra + ">var s = '" + inner + "';</script>"
+	}},
+	{name: "style", build: func(tag, extra, inner string) string {
+		return "<style" + extra + ">." + inner + " { color: red }</style>"
+	}},
+	// script/style forced "visible" by an inline display value: still non-rendered content
+	{name: "script-display-block", flowOnly: true, build: func(tag, extra, inner string) string {
+		return `<script style="display:block"` + extra + ">var s = '" + inner + "';</script>"
+	}},
+	{name: "style-display-block", flowOnly: true, build: func(tag, extra, inner string) string {
+		return `<style style="display:block"` + extra + ">." + inner + " { color: red }</style>"
+	}},
+	{name: "comment", build: func(tag, extra, inner string) string {
+		if extra != "" {
+			return "<!-- <b" + extra + ">" + inner + "</b> -->"
+		}
+		return "<!-- " + inner + " -->"
+	}},
+	{name: "head-script", inHead: true, build: func(tag, extra, inner string) string {
+		return "<script" + extra + ">var h = '" + inner + "';</script>"
+	}},
+	{name: "head-style", inHead: true, build: func(tag, extra, inner string) string {
+		return "<style" + extra + ">." + inner + " { margin: 0 }</style>"
+	}},
+}
+
+// a placement: builds the container around the hidden snippet; mark is a visible token placed next
+// to the hidden element. hiddenTag is the element the attribute mechanisms use in this placement.
+type govcC04Place struct {
+	name        string
+	hiddenTag   string
+	elementOnly bool // only meaningful for attribute mechanisms (the hidden element is structural)
+	flow        bool // main-flow placement (not inside a retained table or figure)
+	raw         bool // the hidden content is a raw token (inside <td>..</td> cells built by the placement)
+	build       func(mark, hidden string) string
+}
+
+const govcC04Img = `<img src="/images/harbour-quay.jpg" width="640" height="420" alt="The quay">`
+
+func govcC04Table(mark, cellExtra, rowExtra string) string {
+	return `<table><caption>Planned costs per building ` + mark + `cap</caption>` +
+		`<thead><tr><th>Building</th><th>Cost in thousands</th><th>Start year</th></tr></thead><tbody>` +
+		`<tr><td>Warehouse one ` + mark + cellExtra + `</td><td>420</td><td>2027</td></tr>` +
+		rowExtra +
+		`<tr><td>Warehouse two</td><td>380</td><td>2028</td></tr>` +
+		`<tr><td>Customs house</td><td>910</td><td>2029</td></tr></tbody></table>`
+}
+
+var govcC04Places = []govcC04Place{
+	{name: "paragraph", hiddenTag: "span", flow: true, build: func(mark, hidden string) string {
+		return `<p>The harbour master, who has worked on the quay for thirty years ` + mark + ` ` + hidden +
+			` said that the plan was the most careful one he had seen, and he hoped that the fishermen who still land their catch there every morning would be allowed to keep their berths during the works.</p>`
+	}},
+	{name: "list-item", hiddenTag: "span", flow: true, build: func(mark, hidden string) string {
+		return `<ul><li>The first phase covers the three warehouses next to the customs house ` + mark + ` ` + hidden +
+			` and is expected to take eighteen months from the day the scaffolding goes up.</li>` +
+			`<li>The second phase covers the promenade, the ferry terminal and the small park behind the old rope factory, which will be replanted with lime trees.</li></ul>`
+	}},
+	{name: "list-item-self", hiddenTag: "li", elementOnly: true, build: func(mark, hidden string) string {
+		return `<ul><li>The first phase covers the three warehouses next to the customs house ` + mark +
+			` and is expected to take eighteen months from the day the scaffolding goes up.</li>` + hidden +
+			`<li>The second phase covers the promenade, the ferry terminal and the small park behind the old rope factory, which will be replanted with lime trees.</li></ul>`
+	}},
+	{name: "blockquote", hiddenTag: "span", flow: true, build: func(mark, hidden string) string {
+		return `<blockquote><p>We have waited a very long time for this decision ` + mark + ` ` + hidden +
+			` and we are glad that the council listened to the people who actually live and work beside the water, said the chairwoman of the residents association after the vote.</p></blockquote>`
+	}},
+	{name: "table-cell", hiddenTag: "span", build: func(mark, hidden string) string {
+		return govcC04Table(mark, " "+hidden, "")
+	}},
+	{name: "table-row-self", hiddenTag: "tr", elementOnly: true, raw: true, build: func(mark, hidden string) string {
+		return govcC04Table(mark, "", hidden)
+	}},
+	{name: "figcaption-link", hiddenTag: "span", build: func(mark, hidden string) string {
+		return `<figure>` + govcC04Img + `<figcaption>The quay at low tide ` + mark + ` ` + hidden +
+			` photographed by <a href="/people/photographer">the town archive</a></figcaption></figure>`
+	}},
+	{name: "figcaption-nolink", hiddenTag: "span", build: func(mark, hidden string) string {
+		return `<figure>` + govcC04Img + `<figcaption>The quay at low tide ` + mark + ` ` + hidden +
+			` photographed by the town archive</figcaption></figure>`
+	}},
+	{name: "figure-nocaption", hiddenTag: "span", build: func(mark, hidden string) string {
+		return `<figure>` + govcC04Img + `<span>The quay at low tide ` + mark + `</span> ` + hidden + `</figure>`
+	}},
+}
+
+// second family: non-reading elements (exempt inside retained tables/figures, so main flow only)
+type govcC04Ctl struct {
+	name  string
+	build func(extra, token string) string
+}
+
+var govcC04Ctls = []govcC04Ctl{
+	{"form", func(x, t string) string {
+		return `<form action="/subscribe"` + x + `><label>` + t + ` newsletter</label><span>` + t + `</span></form>`
+	}},
+	{"input", func(x, t string) string { return `<input type="text" name="q" value="` + t + `"` + x + `>` }},
+	{"input-placeholder", func(x, t string) string { return `<input type="search" placeholder="` + t + `"` + x + `>` }},
+	{"button", func(x, t string) string { return `<button type="button"` + x + `>` + t + `</button>` }},
+	{"select-option", func(x, t string) string {
+		return `<select name="s"` + x + `><option value="1">` + t + `</option><option>` + t + `two</option></select>`
+	}},
+	{"optgroup-option", func(x, t string) string {
+		return `<select` + x + `><optgroup label="g"><option>` + t + `</option></optgroup></select>`
+	}},
+	{"option-bare", func(x, t string) string { return `<option` + x + `>` + t + `</option>` }},
+	{"textarea", func(x, t string) string { return `<textarea rows="2"` + x + `>` + t + ` text</textarea>` }},
+	{"noscript-text", func(x, t string) string { return `<noscript` + x + `>` + t + ` please enable scripts</noscript>` }},
+	{"noscript-span", func(x, t string) string { return `<noscript` + x + `><span>` + t + `</span></noscript>` }},
+	{"svg-text", func(x, t string) string {
+		return `<svg width="10" height="10"` + x + `><text x="0" y="5">` + t + `</text></svg>`
+	}},
+	{"svg-title", func(x, t string) string {
+		return `<svg viewBox="0 0 1 1"` + x + `><title>` + t + `</title><desc>` + t + `d</desc><circle r="1"></circle></svg>`
+	}},
+	{"object", func(x, t string) string {
+		return `<object data="/media/plan.swf" type="application/x-custom"` + x + `>` + t + ` fallback</object>`
+	}},
+	{"object-param", func(x, t string) string {
+		return `<object` + x + `><param name="movie" value="/media/plan.swf"><span>` + t + `</span></object>`
+	}},
+	{"embed", func(x, t string) string { return `<embed src="/media/plan.swf" title="` + t + `"` + x + `>` }},
+	{"applet", func(x, t string) string { return `<applet code="Plan.class"` + x + `>` + t + ` applet</applet>` }},
+	{"iframe-unrecognised", func(x, t string) string {
+		return `<iframe src="http://ads.other.example/frame.html"` + x + `>` + t + ` frame</iframe>`
+	}},
+	{"iframe-nosrc", func(x, t string) string { return `<iframe` + x + `>` + t + ` frame</iframe>` }},
+}
+
+var govcC04FlowPlaces = []struct {
+	name  string
+	build func(mark, snippet string) string
+}{
+	{"paragraph", govcC04Places[0].build},
+	{"list-item", govcC04Places[1].build},
+	{"blockquote", govcC04Places[3].build},
+	{"div-block", func(mark, snippet string) string {
+		return `<div>The harbour master, who has worked on the quay for thirty years ` + mark +
+			` said that the plan was the most careful one he had seen in all that time.</div><div>` + snippet +
+			`</div><div>He hoped that the fishermen who still land their catch there every morning would be allowed to keep their berths during the works ` + mark + `b and afterwards.</div>`
+	}},
 }
 
 func TestGovcHiddenReplay(t *testing.T) {
-	res, err := ApplyForReader(strings.NewReader(govcHiddenDoc()), nil)
-	if err != nil {
-		t.Fatal(err)
-	}
-	html := dom.OuterHTML(res.Node)
-	for _, w := range append(strings.Fields(res.Text), strings.Fields(dom.TextContent(res.Node))...) {
-		if strings.HasPrefix(w, "leak") || strings.HasPrefix(w, "headscript") {
-			t.Errorf("hidden or non-reading content leaks into the output: %q", w)
+	evals, nontrivial, samples := 0, 0, 0
+	defer func() {
+		fmt.Printf("GOVC-CASES evaluations=%d distinct_nontrivial=%d rule=%s\n", evals, nontrivial,
+			"family 1: hiding mechanism (display:none variants, hidden, visibility hidden/collapse, aria-hidden, script, style, script/style with style=display:block (every placement), comment, head script/style) x placement (paragraph, list item, blockquote, data-table cell/row, figcaption with/without link, figure without caption) x {no other attributes, other attributes}; family 2: form controls/noscript/svg/object/embed/applet/unrecognised iframe x main-flow placement x attributes; plus the aria-hidden fallback-image case; one document and one unique leak token per case; non-trivial = the visible marker token next to the hidden element reached Result.Text and Result.Node, i.e. the surrounding container was retained")
+	}()
+
+	check := func(key, src, token, mark, hidden string) {
+		evals++
+		res, failure := govcC04Run(src)
+		if failure != "" {
+			t.Errorf("GOVC-FAIL %s :: the call failed (%s), expected a result; input %s", key, failure, govcC04Short(hidden))
+			return
+		}
+		retained := strings.Contains(res.Text, mark) && len(govcC04Occurrences(res.Node, mark)) > 0
+		if retained {
+			nontrivial++
+		}
+		inText := strings.Contains(res.Text, token)
+		occ := govcC04Occurrences(res.Node, token)
+		if samples < 3 {
+			samples++
+			fmt.Printf("GOVC-SAMPLE case %s hidden %s -> container retained=%v, token in Result.Text=%v, in Result.Node=%v\n",
+				key, govcC04Short(hidden), retained, inText, occ)
+		}
+		if inText || len(occ) > 0 {
+			var where []string
+			if inText {
+				where = append(where, "Result.Text")
+			}
+			if len(occ) > 0 {
+				where = append(where, "Result.Node ("+strings.Join(occ, ", ")+")")
+			}
+			t.Errorf("GOVC-FAIL %s :: non-rendered/non-reading content leaks into %s: token %s is present, the property demands it never appears in the distilled text nor in the distilled HTML outside embed placeholders; hidden markup %s",
+				key, strings.Join(where, " and "), token, govcC04Short(hidden))
 		}
 	}
-	_ = html
+
+	extras := []struct{ name, attrs string }{
+		{"bare", ""},
+		{"attrs", ` id="note7" class="aside-note" data-kind="x" title="note"`},
+	}
+
+	n := 0
+	// family 1
+	for _, m := range govcC04Mechs {
+		for _, p := range govcC04Places {
+			if p.elementOnly && !m.element {
+				continue
+			}
+			for _, x := range extras {
+				n++
+				token := fmt.Sprintf("leak%04dq", n)
+				mark := fmt.Sprintf("mark%04dq", n)
+				inner := token
+				if p.raw {
+					inner = "<td>" + token + "</td><td>" + token + "b</td><td>1</td>"
+				} else if p.hiddenTag == "li" {
+					inner = token + " is a list item that the page hides from its readers."
+				}
+				hidden := m.build(p.hiddenTag, x.attrs, inner)
+				head, snippet := "", hidden
+				if m.inHead {
+					head, snippet = hidden, ""
+				}
+				check(m.name+"/"+p.name+"/"+x.name, govcC04Doc(head, p.build(mark, snippet)), token, mark, hidden)
+			}
+		}
+	}
+	// family 2
+	for _, c := range govcC04Ctls {
+		for _, p := range govcC04FlowPlaces {
+			for _, x := range extras {
+				n++
+				token := fmt.Sprintf("leak%04dq", n)
+				mark := fmt.Sprintf("mark%04dq", n)
+				hidden := c.build(x.attrs, token)
+				check("ctl-"+c.name+"/"+p.name+"/"+x.name, govcC04Doc("", p.build(mark, hidden)), token, mark, hidden)
+			}
+		}
+	}
+	// the known exemption: aria-hidden element whose class contains "fallback-image"
+	{
+		token, mark := "leak9001q", "mark9001q"
+		hidden := `<span aria-hidden="true" class="mwe-math-fallback-image-inline">` + token + `</span>`
+		check("aria-hidden-fallback-image/paragraph", govcC04Doc("", govcC04Places[0].build(mark, hidden)), token, mark, hidden)
+	}
+}
+
+// ---------------------------------------------------------------------------------------------
+// C05
+// ---------------------------------------------------------------------------------------------
+
+// an attribute set placed on page elements; cls is kept apart because some kinds need their own class.
+type govcC05Set struct {
+	name  string
+	cls   string // value of the class attribute ("" = none)
+	other string // other attributes, leading space included
+}
+
+var govcC05Sets = []govcC05Set{
+	{"id", "", ` id="govcid1"`},
+	{"class", "govccls lead-text", ``},
+	{"style", "", ` style="color:red; font-size:12px"`},
+	{"onclick", "", ` onclick="govcEvil(1)"`},
+	{"onload-onerror", "", ` onload="govcEvil(2)" onerror="govcEvil(3)"`},
+	{"on-upper", "", ` ONMOUSEOVER="govcEvil(4)" onfocus="govcEvil(5)"`},
+	{"data", "", ` data-foo="govcdata" data-track-id="77"`},
+	{"several", "govccls", ` id="govcid2" style="margin:0" onclick="govcEvil(6)" data-foo="1" title="kept or not"`},
+}
+
+// attrs renders the set, merging ownClass (a class the element needs to be recognised) into class.
+func (s govcC05Set) attrs(ownClass string) string {
+	cls := strings.TrimSpace(ownClass + " " + s.cls)
+	out := s.other
+	if cls != "" {
+		out = ` class="` + cls + `"` + out
+	}
+	return out
+}
+
+var govcC05None = govcC05Set{name: "none"}
+
+// an element kind; build gets the attribute sets for the element itself, its block ancestor and its
+// descendants, plus a snippet (script/style child or "") to put inside the element.
+type govcC05Kind struct {
+	name     string
+	hasDesc  bool
+	build    func(self, anc, desc govcC05Set, child string) string
+	retained func(root *html.Node) bool
+}
+
+const govcC05Text = "The surveyors spent most of the summer measuring the old foundations along the quay and found that the oak piles driven into the mud two centuries ago were in far better condition than anyone on the council had dared to hope when the study was ordered"
+
+func govcC05HasTagWithText(root *html.Node, tag, text string) bool {
+	for _, e := range dom.GetElementsByTagName(root, tag) {
+		if strings.Contains(dom.TextContent(e), text) {
+			return true
+		}
+	}
+	return false
+}
+
+func govcC05HasTag(root *html.Node, tag string) bool {
+	return len(dom.GetElementsByTagName(root, tag)) > 0
+}
+
+var govcC05Kinds = []govcC05Kind{
+	{"p-single-inline", true, func(s, a, d govcC05Set, child string) string {
+		return `<div` + a.attrs("") + `><p` + s.attrs("") + `><strong` + d.attrs("") + `>kindprobe ` + govcC05Text + `.` + child + `</strong></p></div>`
+	}, func(r *html.Node) bool { return govcC05HasTagWithText(r, "strong", "kindprobe") }},
+	{"p-mixed", true, func(s, a, d govcC05Set, child string) string {
+		return `<div` + a.attrs("") + `><p` + s.attrs("") + `>kindprobe ` + govcC05Text + ` <em` + d.attrs("") + `>as they said</em> and <a href="/report"` + d.attrs("") + `>the report</a> confirms it.` + child + `</p></div>`
+	}, func(r *html.Node) bool { return govcC05HasTagWithText(r, "p", "kindprobe") && govcC05HasTag(r, "em") }},
+	{"div-single-inline", true, func(s, a, d govcC05Set, child string) string {
+		return `<section` + a.attrs("") + `><div` + s.attrs("") + `><span` + d.attrs("") + `>kindprobe ` + govcC05Text + `.</span>` + child + `</div></section>`
+	}, func(r *html.Node) bool { return govcC05HasTagWithText(r, "span", "kindprobe") }},
+	{"h2-single-inline", true, func(s, a, d govcC05Set, child string) string {
+		return `<div` + a.attrs("") + `><h2` + s.attrs("") + `><em` + d.attrs("") + `>kindprobe what the surveyors found</em>` + child + `</h2><p>` + govcC05Text + `.</p></div>`
+	}, func(r *html.Node) bool { return govcC05HasTagWithText(r, "h2", "kindprobe") }},
+	{"list", true, func(s, a, d govcC05Set, child string) string {
+		return `<div` + a.attrs("") + `><ul` + s.attrs("") + `><li` + d.attrs("") + `>kindprobe ` + govcC05Text + ` <b` + d.attrs("") + `>indeed</b>.` + child + `</li><li>` + govcC05Text + ` once more.</li></ul></div>`
+	}, func(r *html.Node) bool { return govcC05HasTagWithText(r, "li", "kindprobe") }},
+	{"blockquote", true, func(s, a, d govcC05Set, child string) string {
+		return `<div` + a.attrs("") + `><blockquote` + s.attrs("") + `><p` + d.attrs("") + `>kindprobe ` + govcC05Text + ` <i` + d.attrs("") + `>she said</i>.` + child + `</p></blockquote></div>`
+	}, func(r *html.Node) bool { return govcC05HasTagWithText(r, "blockquote", "kindprobe") }},
+	{"pre", true, func(s, a, d govcC05Set, child string) string {
+		return `<div` + a.attrs("") + `><pre` + s.attrs("") + `>kindprobe ` + govcC05Text + `
+second line of the listing <span` + d.attrs("") + `>with a highlighted word</span> in it` + child + `</pre></div>`
+	}, func(r *html.Node) bool { return govcC05HasTagWithText(r, "pre", "kindprobe") }},
+	{"image", false, func(s, a, d govcC05Set, child string) string {
+		return `<div` + a.attrs("") + `><img src="/images/piles.jpg" width="640" height="420" alt="Oak piles"` + s.attrs("") + `>` + child + `</div>`
+	}, func(r *html.Node) bool { return govcC05HasTag(r, "img") }},
+	{"picture", true, func(s, a, d govcC05Set, child string) string {
+		return `<div` + a.attrs("") + `><picture` + s.attrs("") + `><source srcset="/images/piles.webp 1x" type="image/webp"` + d.attrs("") + `>` + child + `<img src="/images/piles.jpg" width="640" height="420" alt="Oak piles"` + d.attrs("") + `></picture></div>`
+	}, func(r *html.Node) bool { return govcC05HasTag(r, "picture") && govcC05HasTag(r, "img") }},
+	{"figure-link", true, func(s, a, d govcC05Set, child string) string {
+		return `<div` + a.attrs("") + `><figure` + s.attrs("") + `><img src="/images/piles.jpg" width="640" height="420" alt="Oak piles"` + d.attrs("") + `><figcaption` + d.attrs("") + `>kindprobe the oak piles, photo by <a href="/people/archive"` + d.attrs("") + `>the town archive</a>` + child + `</figcaption></figure></div>`
+	}, func(r *html.Node) bool {
+		return govcC05HasTagWithText(r, "figcaption", "kindprobe") && govcC05HasTag(r, "figure")
+	}},
+	{"figure-nolink", true, func(s, a, d govcC05Set, child string) string {
+		return `<div` + a.attrs("") + `><figure` + s.attrs("") + `><img src="/images/piles.jpg" width="640" height="420" alt="Oak piles"` + d.attrs("") + `><figcaption` + d.attrs("") + `>kindprobe the oak piles <em` + d.attrs("") + `>at low tide</em>` + child + `</figcaption></figure></div>`
+	}, func(r *html.Node) bool {
+		return govcC05HasTagWithText(r, "figcaption", "kindprobe") && govcC05HasTag(r, "figure")
+	}},
+	{"video", true, func(s, a, d govcC05Set, child string) string {
+		return `<div` + a.attrs("") + `><video controls poster="/images/poster.jpg" width="640" height="360"` + s.attrs("") + `><source src="/media/survey.mp4" type="video/mp4"` + d.attrs("") + `><track src="/media/survey.vtt" kind="subtitles"` + d.attrs("") + `>` + child + `</video></div>`
+	}, func(r *html.Node) bool { return govcC05HasTag(r, "video") && govcC05HasTag(r, "source") }},
+	{"table", true, func(s, a, d govcC05Set, child string) string {
+		return `<div` + a.attrs("") + `><table` + s.attrs("") + `><caption` + d.attrs("") + `>kindprobe condition of the piles</caption>` +
+			`<thead` + d.attrs("") + `><tr` + d.attrs("") + `><th` + d.attrs("") + `>Pile</th><th>Depth in metres</th><th>Condition</th></tr></thead><tbody` + d.attrs("") + `>` +
+			`<tr><td` + d.attrs("") + `>North one <span` + d.attrs("") + `>oak</span>` + child + `</td><td>11</td><td>good</td></tr>` +
+			`<tr><td>North two</td><td>12</td><td>good</td></tr><tr><td>South one</td><td>9</td><td>fair</td></tr></tbody></table></div>`
+	}, func(r *html.Node) bool {
+		return govcC05HasTagWithText(r, "table", "kindprobe") && govcC05HasTag(r, "td")
+	}},
+	{"youtube-iframe", false, func(s, a, d govcC05Set, child string) string {
+		return `<div` + a.attrs("") + `><iframe src="https://www.youtube.com/embed/dQw4w9WgXcQ?rel=0" width="560" height="315" allowfullscreen` + s.attrs("") + `></iframe>` + child + `</div>`
+	}, func(r *html.Node) bool {
+		for _, e := range dom.GetElementsByTagName(r, "div") {
+			if govcC04IsPlaceholder(e) && dom.GetAttribute(e, "data-type") == "youtube" {
+				return true
+			}
+		}
+		return false
+	}},
+	{"twitter-blockquote", true, func(s, a, d govcC05Set, child string) string {
+		return `<div` + a.attrs("") + `><blockquote` + s.attrs("twitter-tweet") + `><p lang="en" dir="ltr"` + d.attrs("") + `>kindprobe the piles are fine ` + child + `</p>&mdash; Town surveyor <a href="https://twitter.com/surveyor/status/1234567890123"` + d.attrs("") + `>June 3, 2026</a></blockquote></div>`
+	}, func(r *html.Node) bool {
+		for _, e := range dom.GetElementsByTagName(r, "div") {
+			if govcC04IsPlaceholder(e) && dom.GetAttribute(e, "data-type") == "twitter" && govcC05HasTag(e, "blockquote") {
+				return true
+			}
+		}
+		return false
+	}},
+}
+
+// script/style children put inside each kind
+var govcC05Children = []struct{ name, markup string }{
+	{"script-bare", `<script>govcEvil(10)</script>`},
+	{"script-attrs", `<script type="text/javascript" id="govcs1" class="govccls">govcEvil(11)</script>`},
+	{"script-display-block", `<script style="display:block">govcEvil(12)</script>`},
+	{"style-bare", `<style>p { color: red }</style>`},
+	{"style-attrs", `<style type="text/css" media="screen" id="govcs2">p { color: blue }</style>`},
+	{"style-display-block", `<style style="display:block">p { color: green }</style>`},
+}
+
+// govcC05Violations checks the oracle of C05 on every element of the distilled tree.
+func govcC05Violations(root *html.Node) []string {
+	var out []string
+	seen := map[string]bool{}
+	add := func(s string) {
+		if !seen[s] {
+			seen[s] = true
+			out = append(out, s)
+		}
+	}
+	var walk func(n *html.Node, isRoot bool)
+	walk = func(n *html.Node, isRoot bool) {
+		if n.Type == html.ElementNode {
+			tag := strings.ToLower(n.Data)
+			if tag == "script" || tag == "style" {
+				add("<" + tag + "> element present")
+			}
+			placeholder := govcC04IsPlaceholder(n)
+			for _, a := range n.Attr {
+				k := strings.ToLower(a.Key)
+				switch {
+				case strings.HasPrefix(k, "on"):
+					add(fmt.Sprintf("event handler <%s %s=%q>", tag, a.Key, a.Val))
+				case k == "id" || k == "style":
+					add(fmt.Sprintf("<%s %s=%q>", tag, a.Key, a.Val))
+				case k == "class" && !(placeholder && strings.TrimSpace(a.Val) == "embed-placeholder"):
+					add(fmt.Sprintf("<%s class=%q>", tag, a.Val))
+				case strings.HasPrefix(k, "data-") && !placeholder:
+					add(fmt.Sprintf("<%s %s=%q>", tag, a.Key, a.Val))
+				}
+			}
+		}
+		for c := n.FirstChild; c != nil; c = c.NextSibling {
+			walk(c, false)
+		}
+	}
+	walk(root, true)
+	return out
 }
 
 func TestGovcInertReplay(t *testing.T) {
-	src := `<html><body><article>
-<p id="p1" class="c1" style="color:red" onclick="x()" data-foo="1"><strong id="s1" class="c2" onmouseover="y()">` + govcFill + `</strong></p>
-<div id="d1" class="c" onclick="x()"><p class="k" style="x">` + govcFill + ` <a href="/l" id="a1" class="c3" onclick="z()" style="s">link</a> <script>evil()</script><style>p{}</style></p></div>
-<ul id="u" class="cl"><li id="l" onclick="q()" style="s">` + govcFill + `</li></ul>
-<img src="i.png" id="i1" class="ci" style="s" onload="w()" width="10">
-<figure id="f" class="cf" onclick="x()"><img src="f.png" class="c" onerror="e()"><figcaption id="fc" class="c" style="s" onclick="x()">cap <a href="/c" class="c" onclick="x()">l</a><script>evil2()</script></figcaption></figure>
-<video id="v" class="c" onplay="p()" style="s" poster="p.png"><source src="v.mp4" id="vs" class="c" onerror="e()"></video>
-<table id="t" class="c" style="s" onclick="x()"><caption id="tc" class="c">c</caption><tr id="r" class="c" onclick="x()"><th class="c" style="s">h</th><th>i</th></tr><tr><td id="td" class="c" onclick="x()">1 <script>evil3()</script><style>x{}</style></td><td>2</td></tr><tr><td>3</td><td>4</td></tr></table>
-<iframe src="https://www.youtube.com/embed/abc" id="y" class="c" style="s" onload="l()"></iframe>
-<p>` + govcFill + `</p></article></body></html>`
-	res, err := ApplyForReader(strings.NewReader(src), nil)
-	if err != nil {
-		t.Fatal(err)
-	}
-	for _, n := range dom.QuerySelectorAll(res.Node, "*") {
-		tag := dom.TagName(n)
-		if tag == "script" || tag == "style" {
-			t.Errorf("distilled HTML is not inert: <%s> element present", tag)
+	evals, nontrivial, samples := 0, 0, 0
+	defer func() {
+		fmt.Printf("GOVC-CASES evaluations=%d distinct_nontrivial=%d rule=%s\n", evals, nontrivial,
+			"element kind (paragraph with one inline child, mixed paragraph, div/h2 with one inline child, list, blockquote, pre, img, picture, figure with/without caption link, video, data table, youtube iframe, twitter blockquote) x attribute set (id, class, style, onclick, onload/onerror, upper-case on*, data-*, several) x position (element itself, block ancestor, descendants, all) plus each kind x script/style child (bare, with attributes, with style=display:block); one document per case; non-trivial = the element kind was found retained in Result.Node")
+	}()
+
+	check := func(key string, k govcC05Kind, probe string) {
+		evals++
+		res, failure := govcC04Run(govcC04Doc("", probe))
+		if failure != "" {
+			t.Errorf("GOVC-FAIL %s :: the call failed (%s), expected a result; input %s", key, failure, govcC04Short(probe))
+			return
 		}
-		placeholder := strings.Contains(dom.ClassName(n), "embed-placeholder")
-		for _, a := range n.Attr {
-			k := strings.ToLower(a.Key)
-			if strings.HasPrefix(k, "on") || k == "id" || k == "style" || (k == "class" && !placeholder) || (strings.HasPrefix(k, "data-") && !placeholder) {
-				t.Errorf("distilled HTML is not inert: <%s %s=%q>", tag, a.Key, a.Val)
+		retained := k.retained(res.Node)
+		if retained {
+			nontrivial++
+		}
+		viol := govcC05Violations(res.Node)
+		if samples < 3 {
+			samples++
+			fmt.Printf("GOVC-SAMPLE case %s input %s -> kind retained=%v, violations=%v\n", key, govcC04Short(probe), retained, viol)
+		}
+		for _, v := range viol {
+			t.Errorf("GOVC-FAIL %s :: distilled HTML is not inert: %s; the property demands no script/style elements, no on*/id/style attributes and class/data-* only on the embed placeholder wrapper; input %s", key, v, govcC04Short(probe))
+		}
+	}
+
+	positions := []string{"self", "ancestor", "descendant", "all"}
+	for _, k := range govcC05Kinds {
+		for _, s := range govcC05Sets {
+			for _, pos := range positions {
+				if !k.hasDesc && (pos == "descendant" || pos == "all") {
+					continue
+				}
+				self, anc, desc := govcC05None, govcC05None, govcC05None
+				switch pos {
+				case "self":
+					self = s
+				case "ancestor":
+					anc = s
+				case "descendant":
+					desc = s
+				case "all":
+					self, anc, desc = s, s, s
+				}
+				check(k.name+"/"+s.name+"/"+pos, k, k.build(self, anc, desc, ""))
 			}
+		}
+		for _, c := range govcC05Children {
+			check(k.name+"/child-"+c.name+"/inside", k, k.build(govcC05None, govcC05None, govcC05None, c.markup))
 		}
 	}
 }
